@@ -113,6 +113,8 @@ func (p ParamSet) Hash() []byte {
 
 // Toy is a deterministic application: its state root is a hash chain over the executed blocks.
 type Toy struct {
+	// Lenient: the application does not check heights itself (probes of the engine's own height rules)
+	Lenient bool
 	cfg     *Config
 	roots   [][]byte // roots[i] = state root after the block of height i
 	cur     *blockchain.BlockHeader
@@ -209,6 +211,9 @@ func (t *Toy) AfterTransactionsExecute(req *labi.AfterTransactionsExecuteRequest
 	if h >= 1 && h == len(t.roots) {
 		t.pending = NextRoot(t.roots[h-1], t.cur.Height, req.Transactions, req.Assets)
 	}
+	if t.Lenient && len(t.roots) > 0 {
+		t.pending = NextRoot(t.roots[len(t.roots)-1], t.cur.Height, req.Transactions, req.Assets)
+	}
 	return resp, nil
 }
 func (t *Toy) VerifyTransaction(req *labi.VerifyTransactionRequest) (*labi.VerifyTransactionResponse, error) {
@@ -229,6 +234,14 @@ func (t *Toy) Commit(req *labi.CommitRequest) (*labi.CommitResponse, error) {
 	h := int(t.cur.Height)
 	if h == 0 {
 		t.roots = [][]byte{append([]byte{}, req.ExpectedStateRoot...)}
+		return &labi.CommitResponse{StateRoot: req.ExpectedStateRoot}, nil
+	}
+	if t.Lenient {
+		// an application that executes whatever the engine hands it: the engine's own rules are all there is
+		if t.pending == nil || !bytes.Equal(req.ExpectedStateRoot, t.pending) {
+			return nil, fmt.Errorf("toy: state root of the block does not match the execution result")
+		}
+		t.roots = append(t.roots, t.pending)
 		return &labi.CommitResponse{StateRoot: req.ExpectedStateRoot}, nil
 	}
 	if h != len(t.roots) {
